@@ -71,6 +71,11 @@ func (t *Transaction) StartRollbackTimer() error {
 	return nil
 }
 
+// IsRollbackTimerRunning returns true if the transaction was applied and waits for its confirmation.
+func (t *Transaction) IsRollbackTimerRunning() bool {
+	return t.timer != nil && t.timer.IsRunning()
+}
+
 func (t *Transaction) SetTimeout(d time.Duration) {
 	t.timer = NewTransactionCancelTimer(d, t.rollback)
 }
